@@ -19,6 +19,7 @@ import (
 	"github.com/oxia-db/oxia/common/vhook"
 	"github.com/oxia-db/oxia/proto"
 	"github.com/oxia-db/oxia/server"
+	"github.com/oxia-db/oxia/server/wal"
 
 	"verif/lib/core"
 	rc "verif/lib/replcluster"
@@ -40,7 +41,7 @@ func init() {
 			"oracle: every write succeeds (watchdog => inconclusive), each caller reads back its own version id, leader WAL offsets are contiguous with distinct requests, db.apply offsets are consecutive, qat.commit never decreases, never exceeds the head, never exceeds what >= RF/2 followers have acked for the whole prefix, and commit == head at quiescence; " +
 			"non-trivial = >= 2 writes were in flight at the same time (the number of writers simultaneously between allocation and append is reported as max:writers_in_window; it is 1 when allocation and append are atomic); distinct = (RF, writers, observed max overlap, commit trace hash)",
 		MinNontrivial:    func(tier string) int { return tierN(tier, 30, 700) },
-		RequiredCounters: []string{"writes_ok", "apply_events", "commit_events", "max:writes_in_flight"},
+		RequiredCounters: []string{"writes_ok", "apply_events", "commit_events", "max:writes_in_flight", "group_syncs_checked"},
 		CaseTimeoutS:     150,
 		Weight:           2,
 	})
@@ -168,6 +169,30 @@ func runC08Pipeline(tier string, seed uint64, idx int) core.Result {
 			violate("apply-order", fmt.Sprintf("leader applied offset %d after %d", off, lastApply))
 		}
 		lastApply = off
+	})
+	// what a group sync of a log reports as synced may not include entries appended after its flush began
+	var flushStart sync.Map // log -> last appended offset right before the flush
+	var flushN atomic.Int64
+	vhook.Set("wal.sync.before-flush", func(_ string, args ...any) {
+		if len(args) < 1 {
+			return
+		}
+		if w, ok := args[0].(wal.Wal); ok {
+			if flushN.Add(1)%5 == 0 {
+				time.Sleep(100 * time.Microsecond)
+			}
+			flushStart.Store(args[0], wal.VerifLastAppendedOffset(w))
+		}
+	})
+	vhook.Set("wal.sync.flushed", func(_ string, args ...any) {
+		if len(args) < 2 {
+			return
+		}
+		synced := args[1].(int64)
+		r.Count("group_syncs_checked", 1)
+		if v, ok := flushStart.Load(args[0]); ok && synced > v.(int64) {
+			violate("log-reports-as-synced-an-entry-appended-after-the-flush-began", fmt.Sprintf("a group sync whose flush began when offset %d was the last one appended reports offset %d as synced", v.(int64), synced))
+		}
 	})
 	vhook.Set("qat.commit", func(_ string, args ...any) {
 		if len(args) < 3 {
